@@ -93,9 +93,27 @@ def run_episode(spec, uid="E"):
         for name, text in PUML_FILES.items():
             with open(os.path.join(tmpdir, name + ".puml"), "w") as f:
                 f.write(text)
+    def do_asserts(worlds):
+        for wj in worlds:
+            w = World(wj["modules"], wj["imports"])
+            ev = build_real(w)
+            o = _outcome(lambda: obj.assert_applies(ev))
+            exc = ""
+            if isinstance(o, tuple):
+                o, exc = o
+                excs[exc] = excs.get(exc, 0) + 1
+            events.append({"k": "assert", "h": h, "arch": w.json(), "out": o, "exc": exc})
+            if which == "lrule":
+                events.append({"k": "basis", "h": h, "layers": definition(arch)})
+
     try:
         for c in spec["hist"]:
             m = c["m"]
+            if m == "assert_applies":
+                # an evaluation in the middle of the history: the object is used, then configured further (the
+                # automaton state is unchanged by an evaluation; what the object remembers from it must not matter)
+                do_asserts(spec.get("asserts", [])[1:3])
+                continue
             logged = {"m": m}
             if which == "rule" and "filters" in c:
                 arg = _rule_arg(c)
@@ -144,17 +162,7 @@ def run_episode(spec, uid="E"):
                 want = "Layered Architecture: " + "; ".join(
                     f"Layer {x['name']}: [{', '.join(mf.identifier for mf in obj[x['name']])}]" for x in layers)
                 events.append({"k": "show", "h": h, "layers": layers, "str_consistent": text == want, "str": text})
-        for wj in spec.get("asserts", []):
-            w = World(wj["modules"], wj["imports"])
-            ev = build_real(w)
-            o = _outcome(lambda: obj.assert_applies(ev))
-            exc = ""
-            if isinstance(o, tuple):
-                o, exc = o
-                excs[exc] = excs.get(exc, 0) + 1
-            events.append({"k": "assert", "h": h, "arch": w.json(), "out": o, "exc": exc})
-            if which == "lrule":
-                events.append({"k": "basis", "h": h, "layers": definition(arch)})
+        do_asserts(spec.get("asserts", []))
     finally:
         if tmpdir:
             import shutil
